@@ -295,6 +295,9 @@ class SandboxNative(NativeFilestore):
             for d in dns:
                 items.append(f"{rel}/{d}/")
             for f in fns:
+                if Path(dp, f).stat().st_size > (1 << 24):     # a sparse file of the large-file scenarios
+                    items.append(f"{rel}/{f}:#{Path(dp, f).stat().st_size}")
+                    continue
                 data = Path(dp, f).read_bytes()
                 items.append(f"{rel}/{f}:{data.hex() or '-'}")
         return ",".join(sorted(items, key=lambda s: s.split(":")[0].rstrip("/"))) or "-"
@@ -729,6 +732,16 @@ class World:
             return f"ok now={NOW[0]}"
         if op == "file":   # the user (re)writes a file between transactions: same line as in the header
             self._header(t)
+            return "ok"
+        if op == "sparse":  # sparse <handler> <path> <size>: a file of <size> zero bytes that occupies no
+            # space (native sandbox only; implementation-only scenarios: the model cannot hold 2^32 bytes)
+            fs = self.fs.get(t[1])
+            if not isinstance(fs, SandboxNative):
+                return "bad-op"
+            hp = fs.host(t[2])
+            hp.parent.mkdir(parents=True, exist_ok=True)
+            with open(hp, "wb") as fh:
+                fh.truncate(int(t[3]))
             return "ok"
         name = t[1]
         h = self.h.get(name)
